@@ -186,6 +186,16 @@ def execute(ctx, case):
         drain(ctx, case)
 
 
+def prime(db):
+    """Queries of every kind before anything moves: whatever a handle remembers from them must not outlive a write."""
+    for cw in (True, False):
+        list(db.region(("chr1", 1, 2 ** 29 - 2), completely_within=cw))
+        list(db.region("chr1:1-1000000", completely_within=cw))
+        list(db.all_features(limit=("chr1", 1, 2 ** 29 - 2), completely_within=cw))
+    list(db.region(seqid="chr1", start=5))
+    list(db.all_features())
+
+
 def edited_insert(ctx, case):
     """Bin assigned *on insert*: coordinates edited between construction and insert (a transform that shifts
     features; a fetched feature edited and written back with update(replace)) must be stored under bins(start, end)
@@ -204,9 +214,22 @@ def edited_insert(ctx, case):
                 f.start, f.end = target[f.attributes["ID"][0]]
                 return f
             db = gffutils.create_db("\n".join(lines), dbfn, from_string=True, transform=tr)
+        elif case["how"] == "second-handle":
+            # this handle has answered queries before; the features then move through ANOTHER handle on the same file
+            db = gffutils.create_db("\n".join(lines), dbfn, from_string=True)
+            prime(db)
+            other = gffutils.FeatureDB(dbfn)
+            edited = []
+            for f in other.all_features():
+                f.start, f.end = target[f.id]
+                edited.append(f)
+            other.update(edited, merge_strategy="replace", make_backup=False)
+            other.conn.close()
+            ctx.mon("queries on a primed handle after another handle moved the features")
         elif case["how"] == "add_relation-hooks":
             # the documented hook functions of add_relation return the (edited) features, which are written back
             db = gffutils.create_db("\n".join(lines), dbfn, from_string=True)
+            prime(db)
 
             def move(f):
                 f.start, f.end = target[f.id]
@@ -217,6 +240,7 @@ def edited_insert(ctx, case):
             db.add_relation(ids[0], ids[1], 2, parent_func=lambda parent, child: move(parent))
         else:
             db = gffutils.create_db("\n".join(lines), dbfn, from_string=True)
+            prime(db)
             edited = []
             for f in db.all_features():
                 f.start, f.end = target[f.id]
@@ -358,7 +382,7 @@ def run(ctx):
             s0 = rng.choice(inr2); e0 = min(S.LIMIT - 1, s0 + rng.randrange(0, 3000))
             s1 = rng.choice(inr2); e1 = min(S.LIMIT - 1, s1 + rng.choice([0, 1, 2, 500, 2 ** 17, 2 ** 20 + 3]))
             moves.append((s0, e0, s1, e1))
-        case = {"kind": "edited", "how": rng.choice(["transform", "update-replace", "add_relation-hooks"]), "moves": moves}
+        case = {"kind": "edited", "how": rng.choice(["transform", "update-replace", "add_relation-hooks", "second-handle"]), "moves": moves}
         execute(ctx, case)
         ctx.case(("edited", case["how"], moves), True, sample=case if rng.random() < 0.1 else None, cls="insert after coordinate edit")
     # 7. Feature objects built by gffutils itself next to bin boundaries
